@@ -1,6 +1,6 @@
 (* C07 — every header-producing call of tornado.web.RequestHandler, down to the bytes that
    HTTP1Connection.write_headers hands to the transport, as the code is in /repo (after fixes
-   56282e5, 9b29e11, cb7d7c0).  Executable model of
+   56282e5, 9b29e11, cb7d7c0, 92da2a1).  Executable model of
 
      web.py      RequestHandler.clear (default headers), set_status, set_header, add_header,
                  _convert_header_value, set_cookie, redirect, finish (the part redirect reaches),
@@ -276,7 +276,11 @@ Definition write_headers (c : N) (rsn : text) (h0 : list (text * list text))
     match expect with
     | None => inl EValue
     | Some ex =>
-      if negb (forallb (fun kv => is_token (fst kv)) (pairs_of h)) then inl EValue else
+      (* fix 92da2a1: a non-empty reason must match _ABNF.reason_phrase; every value must be
+         made of [\t\x20-\x7e\x80-\xff] (checked pair by pair together with the name) *)
+      if negb (match rsn with [] => true | _ => forallb is_fv_char rsn end) then inl EValue else
+      if negb (forallb (fun kv => is_token (fst kv) && forallb valid_hchar (snd kv)) (pairs_of h))
+      then inl EValue else
       match sequence_o (map (fun kv => latin1 (header_line kv)) (pairs_of h)) with
       | None => inl EUniEnc
       | Some ls =>
@@ -366,3 +370,66 @@ Definition run (env : text * text) (ops : list op) : list res * option res * tex
   let '(rs, s) := run_ops ops (init env) in
   if written s then (rs, None, wire s)
   else let '(r, s', _) := flush_headers s in (rs, Some r, wire s').
+
+(* ================= the other application-facing routes into write_headers ================= *)
+
+(* ---- route 2: a low-level HTTPMessageDelegate application builds an HTTPHeaders object itself
+   (h[name] = value : unvalidated;  h.add(name, value) : validated) and calls
+   connection.write_headers(ResponseStartLine("HTTP/1.1", code, reason), h) ---- *)
+Inductive hop := HSet (n v : text) | HAdd (n v : text).
+Fixpoint build (hs : list hop) (h : list (text * list text)) : list res * list (text * list text) :=
+  match hs with
+  | [] => ([], h)
+  | HSet n v :: r => let '(rs, h') := build r (h_set n v h) in (Ok :: rs, h')
+  | HAdd n v :: r => let '(x, h1) := h_add n v h in
+                     let '(rs, h') := build r h1 in (x :: rs, h')
+  end.
+Definition run_raw (c : N) (rsn : text) (hs : list hop) : list res * res * text :=
+  let '(rs, h) := build hs [] in
+  match write_headers c rsn h with
+  | inl e => (rs, Err e, [])
+  | inr (w, _, _) => (rs, Ok, w)
+  end.
+
+(* ---- route 3: tornado.wsgi.WSGIContainer.handle_request; the WSGI application calls
+   start_response(status, headers) and returns an empty body ---- *)
+(* status.split(" ", 1) must give two parts *)
+Fixpoint split_sp (s : text) : option (text * text) :=
+  match s with
+  | [] => None
+  | c :: r => if c =? c_sp then Some ([], r)
+              else match split_sp r with Some (a, b) => Some (c :: a, b) | None => None end
+  end.
+(* int(x) on the inputs we generate: ASCII digits -> the number; anything else we generate
+   (empty, or containing an ASCII letter) -> ValueError *)
+Definition py_int (x : text) : option N :=
+  if all_digits x then Some (fold_left (fun a d => 10 * a + (d - 48)) x 0) else None.
+Definition lower_u (n : text) : text := flat_map py_lower n.
+Fixpoint add_all (ps : list (text * text)) (h : list (text * list text)) : option (list (text * list text)) :=
+  match ps with
+  | [] => Some h
+  | (n, v) :: r => match h_add n v h with
+                   | (Ok, h') => add_all r h'
+                   | (Err _, _) => None         (* HTTPInputError escapes handle_request *)
+                   end
+  end.
+Definition wsgi_headers (server : text) (c : N) (hs : list (text * text)) : list (text * text) :=
+  let names := map (fun kv => lower_u (fst kv)) hs in
+  let hs1 := if c =? 304 then hs else
+             let a := if mem_text (t "content-length") names then hs else hs ++ [(k_clen, dec 0)] in
+             if mem_text (t "content-type") names then a else a ++ [(k_ctype, v_ctype)] in
+  if mem_text (t "server") names then hs1 else hs1 ++ [(k_server, server)].
+(* every failure is an exception inside the handle_request coroutine: nothing is written *)
+Definition run_wsgi (server : text) (status : text) (hs : list (text * text)) : text :=
+  match split_sp status with
+  | None => []
+  | Some (cs, rsn) =>
+    match py_int cs with
+    | None => []
+    | Some c =>
+      match add_all (wsgi_headers server c hs) [] with
+      | None => []
+      | Some h => match write_headers c rsn h with inl _ => [] | inr (w, _, _) => w end
+      end
+    end
+  end.
